@@ -799,7 +799,13 @@ public:
 		mMsgPackReader->SetPosition(mStartPos);
 		for (mIndex = 0; mIndex < mSize;)
 		{
-			ReadKey(fn);
+			// The callback may make keyed requests on this scope (SerializeMapImpl does): a request that does not match
+			// the current key searches on and overwrites the key slot, so the callback gets its own copy of the key
+			// (with a reference, a key that does not equal itself - NaN - turned into the next key of its kind)
+			ReadKey([&fn](auto&& key) {
+				auto keyCopy = key;
+				fn(keyCopy);
+			});
 			ResetKey();
 		}
 	}
